@@ -135,6 +135,8 @@ def run(F, chk):
     check_paging(F, G7)
     G11 = chk.rule('G11', 'time lookups use partition_point with a strict `key < wanted` predicate; binary_search* only on keys that are unique by construction')
     check_lookup_primitives(F, G11)
+    G14 = chk.rule('G14', 'lookups return the position found by the search primitive unmodified (no clamp / min / arithmetic between the search and the reply)')
+    check_lookup_result_unmodified(F, G14)
     G8 = chk.rule('G8', 'index builder: the processed marker advances exactly to the end of what was filtered')
     check_builder_progress(F, G8)
 
@@ -624,6 +626,30 @@ def from_matcher_result(F, e):
 TIME_KEY = re.compile(r'(timestamp_us|reception_time_us|start_time|timestamp_dms|time_us)')
 
 
+def lookup_functions(F):
+    """lookup functions of the remote module (StreamContext + FileContext -> position) and the private position helpers of the
+    module (.. &StreamContext .. -> usize) they call"""
+    out = []
+    for b in F.order:
+        if b.crate != 'bin' or b.kind == 'closure' or not b.path.startswith('adlt_bin::remote::') or '::tests::' in b.path:
+            continue
+        if 'StreamContext' not in ' '.join(b.arg_types()) or 'FileContext' not in ' '.join(b.arg_types()):
+            continue
+        if not re.search(r'(^usize$|Result<usize)', b.ret_type()):
+            continue
+        out.append(b)
+    work = list(out)
+    while work:
+        b = work.pop()
+        for blk in b.calls():
+            H = F.get(blk.term.callee.resolved) if blk.term.callee.resolved else F.get(blk.term.callee.path)
+            if H is not None and H.kind != 'closure' and H.crate == 'bin' and H.path.startswith('adlt_bin::remote::') and H.ret_type() == 'usize' and \
+                    'StreamContext' in ' '.join(H.arg_types()) and H not in out:
+                out.append(H)
+                work.append(H)
+    return out
+
+
 def check_lookup_primitives(F, G11):
     """"index/time lookups return the position of the first stream message not before the requested one".
     `binary_search_by(cmp)` returns *any* of several equal elements, so it is only acceptable for keys that are unique by
@@ -632,13 +658,7 @@ def check_lookup_primitives(F, G11):
     Who-may-call + predicate-shape rule over the lookup functions of the remote module."""
     import comparators
     n = 0
-    for b in F.order:
-        if b.crate != 'bin' or b.kind == 'closure' or not b.path.startswith('adlt_bin::remote::') or '::tests::' in b.path:
-            continue
-        if 'StreamContext' not in ' '.join(b.arg_types()) or 'FileContext' not in ' '.join(b.arg_types()):
-            continue
-        if not re.search(r'(^usize$|Result<usize)', b.ret_type()):
-            continue
+    for b in lookup_functions(F):
         cfg = CFG(b)
         E = ExprBuilder(cfg, fold_named=True)
         for blk in b.calls():
@@ -692,4 +712,74 @@ def check_lookup_primitives(F, G11):
                 else:
                     G11.violation(('partition-not-strict', b.path), '%s uses partition_point at %s with predicate %s: the first position *not before* the requested one needs the strict predicate `key < wanted` '
                                   '(with `<=` every message equal to the request is skipped)' % (b.path, b.loc(t.sp), txt[:80]), where=b.loc(t.sp))
-    G11.floor('search primitives in the lookup functions', n, 4)
+    G11.floor('search primitives in the lookup functions', n, 3)
+
+
+# ---------------------------------------------------------------------------------------------
+# G14: the position a lookup returns is the one the search primitive found
+
+ADJUST = re.compile(r'(cmp::min|cmp::max|Ord::min|Ord::max|Ord::clamp|::clamp|saturating_sub|saturating_add|checked_sub|checked_add|wrapping_sub|wrapping_add|::pow|abs_diff)$')
+
+
+def check_lookup_result_unmodified(F, G14):
+    """"lookups return the position of the first stream message not before the requested one" - which is the stream length when
+    every stream message lies before it.  partition_point / binary_search(..).unwrap_or_else(|e| e) deliver exactly that
+    position; anything applied to it afterwards (min(pos, len - 1), pos - 1, clamp ..) turns "behind the end" into a message
+    that lies before the requested one.  For the lookup functions of the remote module and the private helpers they
+    delegate the position to: no arithmetic and no min/max/clamp/saturating call in any definition of the returned position."""
+    lookups = []
+    for b in F.order:
+        if b.crate != 'bin' or b.kind == 'closure' or not b.path.startswith('adlt_bin::remote::') or '::tests::' in b.path:
+            continue
+        if 'StreamContext' not in ' '.join(b.arg_types()) or 'FileContext' not in ' '.join(b.arg_types()):
+            continue
+        if not re.search(r'(^usize$|Result<usize)', b.ret_type()):
+            continue
+        lookups.append(b)
+    G14.floor('lookup functions of the remote module (StreamContext + FileContext -> position)', len(lookups), 2)
+    seen = set()
+    work = list(lookups)
+    n = 0
+    while work:
+        b = work.pop()
+        if b.path in seen:
+            continue
+        seen.add(b.path)
+        G14.fn(b.path)
+        cfg = CFG(b)
+        E = ExprBuilder(cfg, fold_named=True)
+        vals = []
+        for (bi, si, d) in cfg.defs.get(0, []):
+            if si == 'call':
+                vals.append((('call', d.callee.path, tuple(E.operand(a) for a in d.args)), d.sp))
+                continue
+            if d.rv['k'] == 'agg' and d.rv.get('variant') == 'Err':
+                continue
+            ops = [Operand(d.rv['o'])] if d.rv['k'] in ('use', 'cast') else [Operand(o) for o in d.rv.get('ops', [])]
+            for o in ops:
+                # every definition of a phi temp
+                if o.place is not None and o.place.is_local and not o.place.p and len(cfg.defs.get(o.place.l, [])) > 1:
+                    for (b2, s2, d2) in cfg.defs[o.place.l]:
+                        vals.append(((('call', d2.callee.path, tuple(E.operand(a) for a in d2.args)) if s2 == 'call' else E.rvalue(d2.rv)), d2.sp))
+                else:
+                    vals.append((E.operand(o), d.sp))
+        for (e, sp) in vals:
+            n += 1
+            G14.sites += 1
+            bad = None
+            for x in walk(e):
+                if not (isinstance(x, tuple) and x):
+                    continue
+                if x[0] == 'bin' and x[1] in ('Add', 'Sub', 'Mul', 'Div', 'Rem', 'Shl', 'Shr') and 'PtrMetadata' not in show(x)[:14]:
+                    bad = show(x)[:60]
+                if x[0] == 'call' and ADJUST.search(x[1]):
+                    bad = show(x)[:60]
+                if x[0] == 'call':
+                    H = F.get(x[1])
+                    if H is not None and H.kind != 'closure' and H.crate == 'bin' and H.path.startswith('adlt_bin::remote::') and H.ret_type() == 'usize' and H.path not in seen:
+                        work.append(H)
+            if bad:
+                G14.violation(('lookup-result-adjusted', b.path), '%s returns a position that was modified after the search (%s) at %s: "behind the last stream message" can become a message that lies before the requested one' % (b.path, bad, b.loc(sp)), where=b.loc(sp))
+            else:
+                G14.ok(sample={'function': b.path, 'returned_position': show(e)[:90], 'modified_after_search': False})
+    G14.floor('returned positions of the lookup functions', n, 4)
